@@ -536,6 +536,9 @@ CHECK_DEADLOCK FALSE
 ''' % CONN_PER
 
 
+NO_CHILD = dict(a=0, pool=0, poolPid=0, nc=0, nwl=0)       # trace header: the trace starts in the initial state
+
+
 def validate(scratch, traces, provider='sqlite', tag='trace'):
     """Validate a batch of traces against PonyTxn in one TLC run.
     Returns (results, TlcResult); results[i] = dict(accepted, reached, len, inv=(pos, name), first_unmatched)."""
@@ -543,6 +546,8 @@ def validate(scratch, traces, provider='sqlite', tag='trace'):
         return [], None
     out = scratch.path('trace', '%s-%d.out.json' % (tag, len(os.listdir(os.path.dirname(scratch.path('trace', 'x'))))))
     inp = out.replace('.out.json', '.in.json')
+    for t in traces:
+        t.setdefault('child', NO_CHILD)
     with open(inp, 'w') as f:
         json.dump({'traces': traces}, f)
     res = tlc.run('PonyTxnTrace', TRACE_CFG % provider, scratch, env={'IN': inp, 'OUT': out}, workers=1, tag=tag,
